@@ -1,6 +1,7 @@
 import LoraVerif.Model.Device
 import LoraVerif.Model.History
 import LoraVerif.Lemmas.ExceptLemmas
+import LoraVerif.Lemmas.RefineNb
 /-!
 # C06 — uplink frame counters never repeat within a session
 
@@ -1194,6 +1195,758 @@ theorem send_after_expiry_reuses {σ} (g : Rng σ) (m : MacState) (s : Session) 
   obtain ⟨out, _, ho, hf, _⟩ := macSend_fcnt g m s hm data port conf rs rs' o m' h
   exact ⟨out, ho, by rw [hf, hx]⟩
 
+/-! ## the device front-ends: strictly increasing counters for every script (by refinement)
+
+The history theorem is transferred to the two front-end models through the refinement theorems of
+`Lemmas/Refine*.lean`:
+* async (`asyncOps`: `send` / `join` under ANY script of radio answers, both classes, ABP, setters):
+  the session is simulated by the extended history `runC` of its calls (`asyncOps_sim`); the events
+  of `Model/History.lean` go through `step_rel` unchanged, the Class C event shapes (frames handled
+  by `handle_rxc` in the middle of the procedure) through the same per-function counter lemmas
+  (`cycleC_fcnt`); `runC_fcnt_strict` is `history_fcnt_strict` on extended histories, and
+  `async_fcnt_strict` reads it on what the application and the radio see (`FcntStrictObs`);
+* non-blocking (`nbRun`): by the invariant of `nbStep_inv`; the frame handed to the radio at the
+  start of an exchange is checked against `step_rel` on the event "the radio refuses the
+  transmission", the end of the exchange against `step_rel` on the exchange's own event. -/
+
+/-- the `Ev` an extended event is read as by `FcntStrict` (only `isJoin` matters) -/
+def projEv : EvC → Ev
+  | .base e => e
+  | .uplinkC _ data fport conf _ _ rx1 _ rx2 => .uplink data fport conf none rx1 rx2 0 0
+  | .joinC _ _ _ rx1 _ rx2 => .joinOtaa none rx1 rx2 0 0
+
+theorem rxcs_fcnt_mono (m : MacState) (s : Session) (hm : joinedWith m s) (mp : Nat) (cs : List (RxView × Int))
+    (os : List RxOut) (fin : Bool) (m' : MacState) (h : rxcs m mp cs = .ok (os, fin, m')) :
+    ∃ s', joinedWith m' s' ∧ s.fcntUp ≤ s'.fcntUp := by
+  induction cs generalizing m s os fin with
+  | nil =>
+    simp only [rxcs, pure, Except.pure, Except.ok.injEq, Prod.mk.injEq] at h
+    obtain ⟨_, _, rfl⟩ := h
+    exact ⟨s, hm, Nat.le_refl _⟩
+  | cons c rest ih =>
+    obtain ⟨v, snr⟩ := c
+    unfold rxcs at h
+    obtain ⟨⟨o, m1⟩, hrx, hk⟩ := Except.bind_eq_ok h
+    obtain ⟨s1, hj1, hle1, _⟩ := macHandleRx_fcnt_mono m s hm v mp snr true o m1 hrx
+    cases o with
+    | none =>
+      simp only [pure, Except.pure, Except.ok.injEq, Prod.mk.injEq] at hk
+      obtain ⟨_, _, rfl⟩ := hk
+      exact ⟨s1, hj1, hle1⟩
+    | some o =>
+      simp only at hk
+      obtain ⟨⟨os2, fin2, m2⟩, hrest, hk2⟩ := Except.bind_eq_ok hk
+      simp only [pure, Except.pure, Except.ok.injEq, Prod.mk.injEq] at hk2
+      obtain ⟨_, _, rfl⟩ := hk2
+      obtain ⟨s2, hj2, hle2⟩ := ih m1 s1 hj1 os2 fin2 hrest
+      exact ⟨s2, hj2, Nat.le_trans hle1 hle2⟩
+
+theorem between_fcnt_mono (cc : Bool) (m : MacState) (s : Session) (hm : joinedWith m s) (cs : List (RxView × Int))
+    (os : List RxOut) (fin : Bool) (m' : MacState) (h : between cc m cs = .ok (os, fin, m')) :
+    ∃ s', joinedWith m' s' ∧ s.fcntUp ≤ s'.fcntUp := by
+  unfold between at h
+  cases cc with
+  | true =>
+    simp only [if_true] at h
+    obtain ⟨rf, _, h⟩ := Except.bind_eq_ok h
+    exact rxcs_fcnt_mono m s hm _ cs os fin m' h
+  | false =>
+    simp only [Bool.false_eq_true, if_false, pure, Except.pure, Except.ok.injEq, Prod.mk.injEq] at h
+    obtain ⟨_, _, rfl⟩ := h
+    exact ⟨s, hm, Nat.le_refl _⟩
+
+/-- a response of a window: the counter has advanced past the frame's, or the session is expired -/
+def RespAdv (s s' : Session) (o : RxOut) : Prop :=
+  (o.resp ≠ .sessionExpired ∧ s.fcntUp + 1 ≤ s'.fcntUp) ∨ o.resp = .sessionExpired
+
+theorem winC_fcnt (cc : Bool) (m : MacState) (s : Session) (hm : joinedWith m s) (cs : List (RxView × Int))
+    (f : Option (RxView × Int)) (mp : Nat) (eb ea : Bool) (r : Option (Option RxOut)) (hd : List RxOut) (m' : MacState)
+    (h : winC cc m cs f mp eb ea = .ok (r, hd, m')) :
+    ∃ s', joinedWith m' s' ∧ s.fcntUp ≤ s'.fcntUp ∧ ∀ o, r = some (some o) → RespAdv s s' o := by
+  unfold winC at h
+  obtain ⟨⟨os, fin, m1⟩, hb, hk⟩ := Except.bind_eq_ok h
+  obtain ⟨s1, hj1, hle1⟩ := between_fcnt_mono cc m s hm cs os fin m1 hb
+  simp only at hk
+  split at hk
+  · simp only [pure, Except.pure, Except.ok.injEq, Prod.mk.injEq] at hk
+    obtain ⟨rfl, _, rfl⟩ := hk
+    exact ⟨s1, hj1, hle1, fun o e => by cases e⟩
+  · obtain ⟨⟨o, m2⟩, hw, hk2⟩ := Except.bind_eq_ok hk
+    obtain ⟨_, _, hk3⟩ := Except.bind_eq_ok hk2
+    obtain ⟨s2, hj2, hc2⟩ := window_fcnt m1 s1 hj1 f mp o m2 hw
+    have hle2 : s1.fcntUp ≤ s2.fcntUp := by
+      rcases hc2 with ⟨_, e⟩ | ⟨_, _, _, e, _⟩ | ⟨_, _, _, e, _⟩ <;> omega
+    simp only at hk3
+    split at hk3
+    · simp only [pure, Except.pure, Except.ok.injEq, Prod.mk.injEq] at hk3
+      obtain ⟨rfl, _, rfl⟩ := hk3
+      exact ⟨s2, hj2, Nat.le_trans hle1 hle2, fun o e => by cases e⟩
+    · simp only [pure, Except.pure, Except.ok.injEq, Prod.mk.injEq] at hk3
+      obtain ⟨rfl, _, rfl⟩ := hk3
+      refine ⟨s2, hj2, Nat.le_trans hle1 hle2, ?_⟩
+      intro o' e
+      simp only [Option.some.injEq] at e
+      subst e
+      rcases hc2 with ⟨e0, _⟩ | ⟨out, e0, hne, e1, _⟩ | ⟨out, e0, he, _, _⟩
+      · cases e0
+      · cases e0; exact Or.inl ⟨hne, by omega⟩
+      · cases e0; exact Or.inr he
+
+theorem cycleC_fcnt (cc : Bool) (m : MacState) (s : Session) (hm : joinedWith m s) (fault : Option FaultPos)
+    (c1 c2 : List (RxView × Int)) (rx1 rx2 : Option (RxView × Int)) (mp1 mp2 : Nat) (fin : ProcEnd) (heard : List RxOut)
+    (m' : MacState) (h : cycleC cc m fault c1 rx1 c2 rx2 mp1 mp2 = .ok (fin, heard, m')) :
+    ∃ s', joinedWith m' s' ∧ s.fcntUp ≤ s'.fcntUp ∧ ∀ o, fin = .resp o → RespAdv s s' o := by
+  unfold cycleC at h
+  split at h
+  · simp only [pure, Except.pure, Except.ok.injEq, Prod.mk.injEq] at h
+    obtain ⟨rfl, _, rfl⟩ := h
+    exact ⟨s, hm, Nat.le_refl _, fun o e => by cases e⟩
+  · obtain ⟨⟨r1, h1, m1⟩, hw1, hk⟩ := Except.bind_eq_ok h
+    obtain ⟨s1, hj1, hle1, hr1⟩ := winC_fcnt cc m s hm c1 rx1 mp1 _ _ r1 h1 m1 hw1
+    cases r1 with
+    | none =>
+      simp only [pure, Except.pure, Except.ok.injEq, Prod.mk.injEq] at hk
+      obtain ⟨rfl, _, rfl⟩ := hk
+      exact ⟨s1, hj1, hle1, fun o e => by cases e⟩
+    | some o1 =>
+      cases o1 with
+      | some o =>
+        simp only [pure, Except.pure, Except.ok.injEq, Prod.mk.injEq] at hk
+        obtain ⟨rfl, _, rfl⟩ := hk
+        exact ⟨s1, hj1, hle1, fun o' e => by cases e; exact hr1 o rfl⟩
+      | none =>
+        simp only at hk
+        obtain ⟨⟨r2, h2, m2⟩, hw2, hk2⟩ := Except.bind_eq_ok hk
+        obtain ⟨s2, hj2, hle2, hr2⟩ := winC_fcnt cc m1 s1 hj1 c2 rx2 mp2 _ _ r2 h2 m2 hw2
+        cases r2 with
+        | none =>
+          simp only [pure, Except.pure, Except.ok.injEq, Prod.mk.injEq] at hk2
+          obtain ⟨rfl, _, rfl⟩ := hk2
+          exact ⟨s2, hj2, Nat.le_trans hle1 hle2, fun o e => by cases e⟩
+        | some o2 =>
+          cases o2 with
+          | some o =>
+            simp only [pure, Except.pure, Except.ok.injEq, Prod.mk.injEq] at hk2
+            obtain ⟨rfl, _, rfl⟩ := hk2
+            refine ⟨s2, hj2, Nat.le_trans hle1 hle2, ?_⟩
+            intro o' e
+            cases e
+            rcases hr2 o rfl with ⟨a, b⟩ | a
+            · exact Or.inl ⟨a, by omega⟩
+            · exact Or.inr a
+          | none =>
+            simp only [pure, Except.pure, Except.ok.injEq, Prod.mk.injEq] at hk2
+            obtain ⟨rfl, _, rfl⟩ := hk2
+            exact ⟨s2, hj2, Nat.le_trans hle1 hle2, fun o e => by cases e⟩
+
+/-- one step of an extended history, seen from the counter bound (`step_rel` on extended events) -/
+theorem stepC_rel {σ} (g : Rng σ) (m m' : MacState) (rs rs' : σ) (ev : EvC) (oc : OutC) (b : Option Nat) (hr : Rel m b)
+    (h : stepC g (m, rs) ev = .ok ((m', rs'), oc)) : stepPost (projEv ev) b m' oc.out := by
+  have rel0 : ∀ m'', Rel m'' (some 0) := fun m'' lo e s _ => by cases e; exact Nat.zero_le _
+  cases ev with
+  | base e =>
+    simp only [stepC] at h
+    obtain ⟨⟨ms1, o⟩, hs, hk⟩ := Except.bind_eq_ok h
+    simp only [pure, Except.pure, Except.ok.injEq, Prod.mk.injEq] at hk
+    obtain ⟨rfl, rfl⟩ := hk
+    exact step_rel g m m' rs rs' e o b hr hs
+  | joinC cc fault c1 rx1 c2 rx2 =>
+    simp only [stepC] at h
+    obtain ⟨⟨o, m1, s1⟩, _, hk⟩ := Except.bind_eq_ok h
+    obtain ⟨⟨fin, heard, m2⟩, _, hk2⟩ := Except.bind_eq_ok hk
+    cases fin <;> simp only [pure, Except.pure, Except.ok.injEq, Prod.mk.injEq] at hk2 <;>
+      obtain ⟨⟨rfl, _⟩, rfl⟩ := hk2 <;> exact rel0 _
+  | uplinkC cc data fport conf fault c1 rx1 c2 rx2 =>
+    simp only [stepC] at h
+    obtain ⟨⟨o, m1, rs1⟩, hsend, hk⟩ := Except.bind_eq_ok h
+    by_cases hjn : ∃ s, m.st = .joined s
+    · obtain ⟨s, hst⟩ := hjn
+      obtain ⟨out1, s1, rfl, hf, _, hj1, hf1⟩ := macSend_fcnt g m s hst data fport conf rs rs1 o m1 hsend
+      simp only at hk
+      obtain ⟨⟨fin, heard, m2⟩, hcy, hk2⟩ := Except.bind_eq_ok hk
+      obtain ⟨s2, hj2, hle2, hresp⟩ := cycleC_fcnt cc m1 s1 hj1 fault c1 c2 rx1 rx2 _ _ fin heard m2 hcy
+      have hfr : ∀ lo, b = some lo → lo ≤ out1.frame.fcnt := fun lo e => by rw [hf]; exact hr lo e s hst
+      cases fin with
+      | resp ro =>
+        simp only [pure, Except.pure, Except.ok.injEq, Prod.mk.injEq] at hk2
+        obtain ⟨⟨rfl, _⟩, rfl⟩ := hk2
+        refine ⟨hfr, ?_⟩
+        rcases hresp ro rfl with ⟨hne, hadv⟩ | he
+        · have : expiredResp (some ro.resp) = false := by
+            unfold expiredResp
+            simp only [beq_eq_false_iff_ne, ne_eq, Option.some.injEq]
+            exact hne
+          simp only [this, Bool.false_eq_true, if_false]
+          exact rel_of_joined hj2 (by omega)
+        · simp only [he, expiredResp, beq_self_eq_true, if_true]
+          intro lo e; cases e
+      | complete =>
+        simp only [pure, Except.pure, Except.ok.injEq, Prod.mk.injEq] at hk2
+        obtain ⟨⟨rfl, _⟩, rfl⟩ := hk2
+        refine ⟨hfr, ?_⟩
+        obtain ⟨s3, hj3, hc3⟩ := macRx2Complete_fcnt m2 s2 hj2
+        rcases hc3 with ⟨_, e3, hne⟩ | ⟨_, _, he⟩
+        · have : expiredResp (some (macRx2Complete m2).1) = false := by
+            unfold expiredResp
+            simp only [beq_eq_false_iff_ne, ne_eq, Option.some.injEq]
+            exact hne
+          simp only [this, Bool.false_eq_true, if_false]
+          exact rel_of_joined hj3 (by omega)
+        · simp only [he, expiredResp, beq_self_eq_true, if_true]
+          intro lo e; cases e
+      | cut =>
+        simp only [pure, Except.pure, Except.ok.injEq, Prod.mk.injEq] at hk2
+        obtain ⟨⟨rfl, _⟩, rfl⟩ := hk2
+        refine ⟨hfr, ?_⟩
+        obtain ⟨s3, hj3, hc3⟩ := fault_fcnt_resp m2 s2 hj2
+        rcases hc3 with ⟨e3, hx⟩ | ⟨e3, hx⟩
+        · simp only [hx, Bool.false_eq_true, if_false, expiredResp]
+          have : ((none : Option Response) == some Response.sessionExpired) = false := rfl
+          simp only [this, Bool.false_eq_true, if_false]
+          exact rel_of_joined hj3 (by omega)
+        · simp only [hx, if_true, expiredResp, beq_self_eq_true]
+          intro lo e; cases e
+    · have hnj : ∀ s, m.st ≠ .joined s := fun s e => hjn ⟨s, e⟩
+      obtain ⟨rfl, rfl⟩ := macSend_notJoined g m hnj data fport conf rs rs1 o m1 hsend
+      simp only [pure, Except.pure, Except.ok.injEq, Prod.mk.injEq] at hk
+      obtain ⟨⟨rfl, _⟩, rfl⟩ := hk
+      simp only [stepPost, projEv, isJoin, Bool.false_eq_true, if_false]
+      exact hr
+
+theorem runC_fcnt_strict {σ} (g : Rng σ) (m : MacState) (rs : σ) (evs : List EvC) (ms' : MacState × σ) (ocs : List OutC)
+    (b : Option Nat) (hr : Rel m b) (h : runC g (m, rs) evs = .ok (ms', ocs)) :
+    FcntStrict b ((evs.map projEv).zip (ocs.map (fun oc => oc.out))) := by
+  induction evs generalizing m rs b ocs with
+  | nil => simp [FcntStrict]
+  | cons ev rest ih =>
+    unfold runC at h
+    obtain ⟨⟨⟨m1, rs1⟩, o⟩, hstep, h⟩ := Except.bind_eq_ok h
+    obtain ⟨⟨ms2, os⟩, hrun, h⟩ := Except.bind_eq_ok h
+    simp only [pure, Except.pure, Except.ok.injEq, Prod.mk.injEq] at h
+    obtain ⟨rfl, rfl⟩ := h
+    have hs := stepC_rel g m m1 rs rs1 ev o b hr hstep
+    simp only [List.map_cons, List.zip_cons_cons]
+    unfold FcntStrict
+    cases hout : o.out with
+    | up so resp dl =>
+      rw [hout] at hs
+      simp only [stepPost] at hs ⊢
+      exact ⟨hs.1, ih m1 rs1 os _ hs.2 hrun⟩
+    | done => rw [hout] at hs; simp only [stepPost] at hs ⊢; split <;> rename_i hj <;> simp only [hj, if_true, if_false, Bool.false_eq_true] at hs <;> exact ih m1 rs1 os _ hs hrun
+    | notJoined => rw [hout] at hs; simp only [stepPost] at hs ⊢; split <;> rename_i hj <;> simp only [hj, if_true, if_false, Bool.false_eq_true] at hs <;> exact ih m1 rs1 os _ hs hrun
+    | join jo resp => rw [hout] at hs; simp only [stepPost] at hs ⊢; split <;> rename_i hj <;> simp only [hj, if_true, if_false, Bool.false_eq_true] at hs <;> exact ih m1 rs1 os _ hs hrun
+    | rxc rf ro => rw [hout] at hs; simp only [stepPost] at hs ⊢; split <;> rename_i hj <;> simp only [hj, if_true, if_false, Bool.false_eq_true] at hs <;> exact ih m1 rs1 os _ hs hrun
+
+/-- a call that (re)starts activation -/
+def _root_.Model.AsyncOp.isJoin : AsyncOp → Bool
+  | .join _ | .abp _ _ _ => true
+  | _ => false
+
+/-- **`FcntStrict` on what the application and the radio see of an async session**: each data frame
+handed to the radio (`OpObs.frame`, see `sentFrame`) carries a counter at or above the bound; after a
+frame with counter `n` the bound is `n + 1`, until a call returns `SessionExpired` (no claim after that);
+`join` / ABP activation start a new session at 0 -/
+def FcntStrictObs : Option Nat → List (AsyncOp × OpObs) → Prop
+  | _, [] => True
+  | b, (op, ob) :: rest =>
+    match ob.frame with
+    | some f =>
+      (∀ lo, b = some lo → lo ≤ f.fcnt) ∧
+        FcntStrictObs (if ob.res == some (.ok .sessionExpired) then none else some (f.fcnt + 1)) rest
+    | none => if op.isJoin then FcntStrictObs (some 0) rest else FcntStrictObs b rest
+
+theorem fcntStrict_obs (cfg : DevCfg) (ops : List AsyncOp) (obs : List OpObs) (ocs : List OutC) (b : Option Nat)
+    (hrel : AllRel ObsRel obs ocs) (hlen : ops.length = obs.length)
+    (h : FcntStrict b (((ops.map (abstractOp cfg)).map projEv).zip (ocs.map (fun oc => oc.out)))) :
+    FcntStrictObs b (ops.zip obs) := by
+  induction hrel generalizing ops b with
+  | nil =>
+    cases ops with
+    | nil => trivial
+    | cons _ _ => simp at hlen
+  | @cons ob oc obs' ocs' hab _ ih =>
+    cases ops with
+    | nil => simp at hlen
+    | cons op rest =>
+      simp only [List.length_cons, Nat.add_right_cancel_iff] at hlen
+      simp only [List.map_cons, List.zip_cons_cons] at h ⊢
+      unfold FcntStrict at h
+      unfold FcntStrictObs
+      obtain ⟨hres, hframe⟩ := hab
+      have hjoin : isJoin (projEv (abstractOp cfg op)) = op.isJoin := by
+        cases op with
+        | send d p c script => simp only [abstractOp, abstractSendC]; split <;> rfl
+        | join script => simp only [abstractOp, abstractJoinC]; split <;> rfl
+        | abp a n k => rfl
+        | setAdr on => rfl
+        | setDr dr => rfl
+      cases hout : oc.out with
+      | up so resp dl =>
+        rw [hout] at h hframe hres
+        simp only [Out.frame?] at hframe
+        simp only [hframe]
+        simp only at h
+        refine ⟨h.1, ?_⟩
+        have hexp : (ob.res == some (DevResult.ok Response.sessionExpired)) = expiredResp resp := by
+          cases hr : ob.res with
+          | none =>
+            rw [hr] at hres
+            simp only at hres
+            cases hres
+          | some res =>
+            rw [hr] at hres
+            simp only [RespRel] at hres
+            subst hres
+            cases res with
+            | ok r =>
+              by_cases hx : r = Response.sessionExpired
+              · subst hx; rfl
+              · have h1 : (some (DevResult.ok r) == some (DevResult.ok Response.sessionExpired)) = false := by
+                  simp only [beq_eq_false_iff_ne, ne_eq, Option.some.injEq, DevResult.ok.injEq]; exact hx
+                have h2 : expiredResp (DevResult.ok r).resp? = false := by
+                  simp only [DevResult.resp?, expiredResp, beq_eq_false_iff_ne, ne_eq, Option.some.injEq]; exact hx
+                rw [h1, h2]
+            | errRadio => simp [DevResult.resp?, expiredResp]
+            | errMac => simp [DevResult.resp?, expiredResp]
+        rw [hexp]
+        exact ih rest _ hlen h.2
+      | done =>
+        rw [hout] at h hframe; simp only [Out.frame?] at hframe; simp only [hframe, hjoin] at h ⊢
+        split <;> rename_i hj <;> simp only [hj, if_true, if_false, Bool.false_eq_true] at h <;> exact ih rest _ hlen h
+      | notJoined =>
+        rw [hout] at h hframe; simp only [Out.frame?] at hframe; simp only [hframe, hjoin] at h ⊢
+        split <;> rename_i hj <;> simp only [hj, if_true, if_false, Bool.false_eq_true] at h <;> exact ih rest _ hlen h
+      | join jo resp =>
+        rw [hout] at h hframe; simp only [Out.frame?] at hframe; simp only [hframe, hjoin] at h ⊢
+        split <;> rename_i hj <;> simp only [hj, if_true, if_false, Bool.false_eq_true] at h <;> exact ih rest _ hlen h
+      | rxc rf ro =>
+        rw [hout] at h hframe; simp only [Out.frame?] at hframe; simp only [hframe, hjoin] at h ⊢
+        split <;> rename_i hj <;> simp only [hj, if_true, if_false, Bool.false_eq_true] at h <;> exact ih rest _ hlen h
+
+theorem allRel_length {α β : Type} {R : α → β → Prop} {l1 : List α} {l2 : List β} (h : AllRel R l1 l2) :
+    l1.length = l2.length := by
+  induction h with
+  | nil => rfl
+  | cons _ _ ih => simp [ih]
+
+theorem asyncOps_length {σ} (g : Rng σ) (cfg : DevCfg) (d : DevRun) (rs : σ) (ops : List AsyncOp) (obs : List OpObs)
+    (d' : DevRun) (rs' : σ) (h : asyncOps g cfg d rs ops = .ok (obs, d', rs')) : ops.length = obs.length := by
+  induction ops generalizing d rs obs with
+  | nil =>
+    simp only [asyncOps, pure, Except.pure, Except.ok.injEq, Prod.mk.injEq] at h
+    obtain ⟨rfl, _⟩ := h; rfl
+  | cons op rest ih =>
+    unfold asyncOps at h
+    obtain ⟨⟨ob, d1, rs1⟩, _, hk⟩ := Except.bind_eq_ok h
+    obtain ⟨⟨obs1, d2, rs2⟩, hrest, hk2⟩ := Except.bind_eq_ok hk
+    simp only [pure, Except.pure, Except.ok.injEq, Prod.mk.injEq] at hk2
+    obtain ⟨rfl, rfl, rfl⟩ := hk2
+    simp [ih d1 rs1 obs1 hrest]
+
+/-- **the frames the async front-end hands to the radio carry strictly increasing counters within a
+session, for every script.**  Any device state, either class, any list of application calls, each
+`send` / `join` under ANY script of radio answers (errors at any call, frames in any window, Class C
+frames between the windows): every data frame handed to the radio carries a counter strictly above the
+previous one of the same session, until a call returns `SessionExpired`; `join` / ABP start a new
+session.  Obtained from the refinement (`asyncOps_sim`) and the history theorem (`runC_fcnt_strict`). -/
+theorem async_fcnt_strict {σ} (g : Rng σ) (cfg : DevCfg) (d : DevRun) (rs : σ) (ops : List AsyncOp) (obs : List OpObs)
+    (d' : DevRun) (rs' : σ) (h : asyncOps g cfg d rs ops = .ok (obs, d', rs')) : FcntStrictObs (some 0) (ops.zip obs) := by
+  obtain ⟨⟨ms', ocs⟩, hrun, hrel⟩ := (asyncOps_sim g cfg d rs ops).elim_ok h
+  have hs := runC_fcnt_strict g d.m rs _ ms' ocs (some 0) (fun _ e _ _ => by cases e; exact Nat.zero_le _) hrun
+  exact fcntStrict_obs cfg ops obs ocs (some 0) hrel.obs (asyncOps_length g cfg d rs ops obs d' rs' h) hs
+
+/-! ### the non-blocking front-end -/
+
+/-- what one event of the non-blocking machine shows to the radio and the application -/
+structure NbObs where
+  /-- the data frame handed to the radio: a `send` in `Idle` that the MAC accepts (`sentFrame`) -/
+  frame : Option UplinkDesc
+  /-- a `join` in `Idle` (the MAC drops the session at once) -/
+  joinStart : Bool
+  resp : NbResp
+
+def nbObsOf {σ} (g : Rng σ) (r : NbRun) (rs : σ) (ev : NbEvent) (resp : NbResp) : NbObs :=
+  { frame := (match r.st, ev with
+      | .idle, .send d p c => sentFrame g r.m d p c rs
+      | _, _ => none),
+    joinStart := (match r.st, ev with
+      | .idle, .join => true
+      | _, _ => false),
+    resp := resp }
+
+/-- a session of the non-blocking device with what each event shows -/
+def nbRunObs {σ} (g : Rng σ) (cfg : NbCfg) : NbRun → σ → List (NbEvent × List NbItem) → M (List NbObs × NbRun × σ)
+  | r, rs, [] => pure ([], r, rs)
+  | r, rs, (ev, items) :: rest => do
+    let (resp, r', rs') ← nbEvent g cfg r rs ev items
+    let (obs, r'', rs'') ← nbRunObs g cfg r' rs' rest
+    pure (nbObsOf g r rs ev resp :: obs, r'', rs'')
+
+def nextBound (b : Option Nat) (ob : NbObs) : Option Nat :=
+  if ob.resp == .mac .sessionExpired then none
+  else match ob.frame with
+    | some f => some (f.fcnt + 1)
+    | none => if ob.joinStart then some 0 else b
+
+/-- **`FcntStrict` on the events of the non-blocking machine**: each data frame handed to the radio
+carries a counter at or above the bound; after a frame with counter `n` the bound is `n + 1`, until
+`SessionExpired` is reported (no claim after that); a `join` accepted in `Idle` starts a new session -/
+def FcntStrictNb : Option Nat → List NbObs → Prop
+  | _, [] => True
+  | b, ob :: rest => (∀ f lo, ob.frame = some f → b = some lo → lo ≤ f.fcnt) ∧ FcntStrictNb (nextBound b ob) rest
+
+/-- what the exchange in progress will leave as the bound -/
+def Promise {σ} (g : Rng σ) (pre : MacState × σ) (b : Option Nat) : Option NbGhost → Prop
+  | none => True
+  | some x =>
+    match x.kind with
+    | some (d, p, c) => ∃ o m1 rs1, macSend g pre.1 d p c pre.2 = .ok (some o, m1, rs1) ∧ ∀ lo, b = some lo → lo ≤ o.frame.fcnt + 1
+    | none => ∀ lo, b = some lo → lo = 0
+
+/-- the invariant of `nb_fcnt_strict`: the refinement invariant, the bound respected by the MAC
+state in `Idle`, and — during an exchange — respected by the history's state, with the exchange's
+own frame accounted for -/
+def NbBound {σ} (g : Rng σ) (b : Option Nat) (pre : MacState × σ) (gh : Option NbGhost) (r : NbRun) (rs : σ) : Prop :=
+  NbInv g pre gh r rs ∧ (r.st = .idle → Rel r.m b) ∧ (r.st ≠ .idle → (∃ b0, Rel pre.1 b0) ∧ Promise g pre b gh)
+
+theorem nbInv_flight {σ} {g : Rng σ} {pre : MacState × σ} {gh : Option NbGhost} {r : NbRun} {rs : σ}
+    (h : NbInv g pre gh r rs) (hst : r.st ≠ .idle) : ∃ x, gh = some x := by
+  unfold NbInv at h
+  cases hs : r.st with
+  | idle => exact absurd hs hst
+  | sendingData join tx => rw [hs] at h; obtain ⟨⟨k, a, c, e, _⟩, _⟩ := h; exact ⟨_, e⟩
+  | waitingForRxWindow join tx second t => rw [hs] at h; obtain ⟨k, a, c, e, _⟩ := h; exact ⟨_, e⟩
+  | waitingForRx join tx second t => rw [hs] at h; obtain ⟨k, a, c, e, _⟩ := h; exact ⟨_, e⟩
+
+theorem nbInv_none_idle {σ} {g : Rng σ} {pre : MacState × σ} {r : NbRun} {rs : σ}
+    (h : NbInv g pre none r rs) : r.st = .idle ∧ pre = (r.m, rs) := by
+  by_cases hst : r.st = .idle
+  · unfold NbInv at h; rw [hst] at h; exact ⟨hst, h.2⟩
+  · obtain ⟨x, e⟩ := nbInv_flight h hst; cases e
+
+theorem nbInv_some_flight {σ} {g : Rng σ} {pre : MacState × σ} {x : NbGhost} {r : NbRun} {rs : σ}
+    (h : NbInv g pre (some x) r rs) : r.st ≠ .idle := by
+  intro hst
+  unfold NbInv at h; rw [hst] at h; cases h.1
+
+/-- while an exchange is in progress the abstraction keeps its kind -/
+theorem nbAbs_flight (x : NbGhost) (st : NbState) (ev : NbEvent) (item : NbItem) (st' : NbState) (hst : st ≠ .idle) :
+    (∃ y, nbAbs (some x) st ev item st' = (none, some y) ∧ y.kind = x.kind) ∨
+    (∃ y tx, nbAbs (some x) st ev item st' = (some (ghostEv y tx), none) ∧ y.kind = x.kind) := by
+  unfold nbAbs
+  cases st with
+  | idle => exact absurd rfl hst
+  | sendingData join tx => cases ev <;> exact Or.inl ⟨x, rfl, rfl⟩
+  | waitingForRxWindow join tx second t => cases ev <;> exact Or.inl ⟨x, rfl, rfl⟩
+  | waitingForRx join tx second t =>
+    cases ev with
+    | join => exact Or.inl ⟨x, rfl, rfl⟩
+    | send d p c => exact Or.inl ⟨x, rfl, rfl⟩
+    | timeout =>
+      simp only
+      split
+      · exact Or.inr ⟨x, tx, rfl, rfl⟩
+      · exact Or.inl ⟨x, rfl, rfl⟩
+    | radio e =>
+      cases e with
+      | txDone ts => exact Or.inl ⟨x, rfl, rfl⟩
+      | rx snr v =>
+        simp only
+        split
+        · split
+          · exact Or.inr ⟨_, tx, rfl, by cases second <;> rfl⟩
+          · exact Or.inl ⟨_, rfl, by cases second <;> rfl⟩
+        · exact Or.inl ⟨x, rfl, rfl⟩
+
+theorem step_uplink_shape {σ} (g : Rng σ) (ms ms' : MacState × σ) (d : List Nat) (p : Nat) (c : Bool) (f : Option Nat)
+    (rx1 rx2 : Option (RxView × Int)) (mp1 mp2 : Nat) (out : Out)
+    (h : step g ms (.uplink d p c f rx1 rx2 mp1 mp2) = .ok (ms', out)) :
+    sentFrame g ms.1 d p c ms.2 = out.frame? ∧ (out = .notJoined ∨ ∃ o r dl, out = .up o r dl) := by
+  simp only [step] at h
+  obtain ⟨⟨o, m1, s1⟩, hsend, hk⟩ := Except.bind_eq_ok h
+  unfold sentFrame
+  rw [hsend]
+  cases o with
+  | none =>
+    simp only [pure, Except.pure, Except.ok.injEq, Prod.mk.injEq] at hk
+    obtain ⟨_, rfl⟩ := hk
+    exact ⟨rfl, Or.inl rfl⟩
+  | some o =>
+    simp only at hk
+    cases f with
+    | some k =>
+      simp only at hk
+      obtain ⟨m2, _, hk2⟩ := Except.bind_eq_ok hk
+      simp only [pure, Except.pure, Except.ok.injEq, Prod.mk.injEq] at hk2
+      obtain ⟨_, rfl⟩ := hk2
+      exact ⟨rfl, Or.inr ⟨_, _, _, rfl⟩⟩
+    | none =>
+      simp only at hk
+      obtain ⟨⟨r, dl, m2⟩, _, hk2⟩ := Except.bind_eq_ok hk
+      simp only [pure, Except.pure, Except.ok.injEq, Prod.mk.injEq] at hk2
+      obtain ⟨_, rfl⟩ := hk2
+      exact ⟨rfl, Or.inr ⟨_, _, _, rfl⟩⟩
+
+theorem rel_none (m : MacState) : Rel m none := fun lo e => by cases e
+
+theorem rel_weaken {m : MacState} {n : Nat} {b : Option Nat} (h : Rel m (some n)) (hb : ∀ lo, b = some lo → lo ≤ n) : Rel m b := by
+  intro lo e s hs
+  exact Nat.le_trans (hb lo e) (h n rfl s hs)
+
+/-- the response of a completed exchange reports expiry iff the history's output does -/
+theorem nbResp_expired {resp : NbResp} {o : SendOut} {r : Option Response} {dl : Option (Nat × List Nat)}
+    (h : NbRespRel resp (.up o r dl)) : (resp == .mac .sessionExpired) = expiredResp r := by
+  cases r with
+  | none =>
+    simp only [NbRespRel] at h
+    rcases h with rfl | rfl <;> rfl
+  | some r =>
+    simp only [NbRespRel] at h
+    subst h
+    by_cases hx : r = Response.sessionExpired
+    · subst hx; rfl
+    · have h1 : (NbResp.mac r == NbResp.mac Response.sessionExpired) = false := by
+        simp only [beq_eq_false_iff_ne, ne_eq, NbResp.mac.injEq]; exact hx
+      have h2 : expiredResp (some r) = false := by
+        simp only [expiredResp, beq_eq_false_iff_ne, ne_eq, Option.some.injEq]; exact hx
+      rw [h1, h2]
+
+theorem nbInv_started {σ} {g : Rng σ} {pre : MacState × σ} {x : NbGhost} {r : NbRun} {rs : σ}
+    (h : NbInv g pre (some x) r rs) : ∃ join tx, Started g pre x.kind join tx r.m rs := by
+  unfold NbInv at h
+  cases hs : r.st with
+  | idle => rw [hs] at h; cases h.1
+  | sendingData join tx =>
+    rw [hs] at h; obtain ⟨⟨k, a, c, e, hst, _⟩, _⟩ := h; cases e; exact ⟨join, tx, hst⟩
+  | waitingForRxWindow join tx second t =>
+    rw [hs] at h; obtain ⟨k, a, c, e, hst, _⟩ := h; cases e; exact ⟨join, tx, hst⟩
+  | waitingForRx join tx second t =>
+    rw [hs] at h; obtain ⟨k, a, c, e, hst, _⟩ := h; cases e; exact ⟨join, tx, hst⟩
+
+theorem nbObsOf_flight {σ} (g : Rng σ) (r : NbRun) (rs : σ) (ev : NbEvent) (resp : NbResp) (hst : r.st ≠ .idle) :
+    (nbObsOf g r rs ev resp).frame = none ∧ (nbObsOf g r rs ev resp).joinStart = false := by
+  unfold nbObsOf
+  cases hs : r.st with
+  | idle => exact absurd hs hst
+  | sendingData join tx => exact ⟨rfl, rfl⟩
+  | waitingForRxWindow join tx second t => exact ⟨rfl, rfl⟩
+  | waitingForRx join tx second t => exact ⟨rfl, rfl⟩
+
+theorem promise_weaken {σ} {g : Rng σ} {pre : MacState × σ} {b b' : Option Nat} {x y : NbGhost}
+    (h : Promise g pre b (some x)) (hk : y.kind = x.kind) (hb : b' = b ∨ b' = none) : Promise g pre b' (some y) := by
+  simp only [Promise] at h ⊢
+  rw [hk]
+  cases hkind : x.kind with
+  | none =>
+    rw [hkind] at h
+    simp only at h ⊢
+    intro lo e
+    rcases hb with rfl | rfl
+    · exact h lo e
+    · cases e
+  | some dpc =>
+    obtain ⟨d, p, c⟩ := dpc
+    rw [hkind] at h
+    simp only at h ⊢
+    obtain ⟨o, m1, rs1, hs, hle⟩ := h
+    refine ⟨o, m1, rs1, hs, ?_⟩
+    intro lo e
+    rcases hb with rfl | rfl
+    · exact hle lo e
+    · cases e
+
+/-- one event of the non-blocking machine, seen from the counter bound -/
+theorem nbStep_bound {σ} (g : Rng σ) (cfg : NbCfg) (b : Option Nat) (pre : MacState × σ) (gh : Option NbGhost) (r : NbRun)
+    (rs : σ) (ev : NbEvent) (items : List NbItem) (resp : NbResp) (r' : NbRun) (rs' : σ)
+    (hJ : NbBound g b pre gh r rs) (h : nbEvent g cfg r rs ev items = .ok (resp, r', rs')) :
+    (∀ f lo, (nbObsOf g r rs ev resp).frame = some f → b = some lo → lo ≤ f.fcnt) ∧
+    ∃ pre' gh', NbBound g (nextBound b (nbObsOf g r rs ev resp)) pre' gh' r' rs' := by
+  have rel0 : ∀ m'', Rel m'' (some 0) := fun m'' lo e s _ => by cases e; exact Nat.zero_le _
+  obtain ⟨hinv, hidle, hfl⟩ := hJ
+  have hpost := nbStep_inv g cfg pre gh r rs ev items resp r' rs' hinv h
+  by_cases hst : r.st = .idle
+  · have hi : gh = none ∧ pre = (r.m, rs) := by unfold NbInv at hinv; rw [hst] at hinv; exact hinv
+    obtain ⟨rfl, rfl⟩ := hi
+    have hRel := hidle hst
+    -- the bound after an event that leaves the machine in `Idle` with the MAC state untouched
+    have quiet : nbAbs none r.st ev (headItem items) r'.st = (none, none) →
+        (nbObsOf g r rs ev resp).frame = none → (nbObsOf g r rs ev resp).joinStart = false →
+        (∀ f lo, (nbObsOf g r rs ev resp).frame = some f → b = some lo → lo ≤ f.fcnt) ∧
+        ∃ pre' gh', NbBound g (nextBound b (nbObsOf g r rs ev resp)) pre' gh' r' rs' := by
+      intro hab hf hj
+      rw [hab] at hpost
+      obtain ⟨hst', hpre⟩ := nbInv_none_idle hpost.1
+      have hm : r'.m = r.m := by simp only [Prod.mk.injEq] at hpre; exact hpre.1.symm
+      refine ⟨fun f lo e => (by rw [hf] at e; cases e), (r.m, rs), none, hpost.1, fun _ => ?_, fun hne => absurd hst' hne⟩
+      rw [hm]
+      unfold nextBound
+      rw [hf, hj]
+      split
+      · exact rel_none _
+      · exact hRel
+    cases ev with
+    | timeout => exact quiet (by rw [hst]; rfl) (by unfold nbObsOf; rw [hst]) (by unfold nbObsOf; rw [hst])
+    | radio e => exact quiet (by rw [hst]; rfl) (by unfold nbObsOf; rw [hst]) (by unfold nbObsOf; rw [hst])
+    | join =>
+      have hf : (nbObsOf g r rs .join resp).frame = none := by unfold nbObsOf; rw [hst]
+      have hj : (nbObsOf g r rs .join resp).joinStart = true := by unfold nbObsOf; rw [hst]
+      refine ⟨fun f lo e => (by rw [hf] at e; cases e), ?_⟩
+      have hb' : nextBound b (nbObsOf g r rs .join resp) = none ∨ nextBound b (nbObsOf g r rs .join resp) = some 0 := by
+        unfold nextBound; rw [hf, hj]; split
+        · exact Or.inl rfl
+        · exact Or.inr rfl
+      rw [hst] at hpost
+      by_cases hid : r'.st.isIdle = true
+      · simp only [nbAbs, hid, if_true, NbStepPost] at hpost
+        obtain ⟨out, _, hinv', _, _⟩ := hpost
+        obtain ⟨hst', _⟩ := nbInv_none_idle hinv'
+        refine ⟨(r'.m, rs'), none, hinv', fun _ => ?_, fun hne => absurd hst' hne⟩
+        rcases hb' with e | e <;> rw [e]
+        · exact rel_none _
+        · exact rel0 _
+      · simp only [nbAbs, hid, Bool.false_eq_true, if_false, NbStepPost] at hpost
+        refine ⟨(r.m, rs), _, hpost.1, fun hi => absurd hi (nbInv_some_flight hpost.1), fun _ => ⟨⟨b, hRel⟩, ?_⟩⟩
+        simp only [Promise]
+        intro lo e
+        rcases hb' with e' | e' <;> rw [e'] at e <;> cases e
+        rfl
+    | send d p c =>
+      have hf : (nbObsOf g r rs (.send d p c) resp).frame = sentFrame g r.m d p c rs := by unfold nbObsOf; rw [hst]
+      have hj : (nbObsOf g r rs (.send d p c) resp).joinStart = false := by unfold nbObsOf; rw [hst]
+      rw [hst] at hpost
+      by_cases hid : r'.st.isIdle = true
+      · simp only [nbAbs, hid, if_true, NbStepPost] at hpost
+        obtain ⟨out, hstep, hinv', hresp, _⟩ := hpost
+        obtain ⟨hst', _⟩ := nbInv_none_idle hinv'
+        obtain ⟨hframe, hshape⟩ := step_uplink_shape g (r.m, rs) (r'.m, rs') d p c (some 0) none none 0 0 out hstep
+        have hsp := step_rel g r.m r'.m rs rs' _ out b hRel hstep
+        rcases hshape with rfl | ⟨o, rr, dl, rfl⟩
+        · simp only [Out.frame?] at hframe
+          refine ⟨fun f lo e => (by rw [hf, hframe] at e; cases e), (r'.m, rs'), none, hinv', fun _ => ?_, fun hne => absurd hst' hne⟩
+          simp only [stepPost, isJoin, Bool.false_eq_true, if_false] at hsp
+          unfold nextBound
+          rw [hf, hframe, hj]
+          split
+          · exact rel_none _
+          · exact hsp
+        · simp only [Out.frame?] at hframe
+          simp only [stepPost] at hsp
+          refine ⟨fun f lo e => (by rw [hf, hframe] at e; cases e; exact hsp.1 lo), (r'.m, rs'), none, hinv',
+            fun _ => ?_, fun hne => absurd hst' hne⟩
+          unfold nextBound
+          have hr : (nbObsOf g r rs (.send d p c) resp).resp = resp := rfl
+          rw [hf, hframe, hr, nbResp_expired hresp]
+          exact hsp.2
+      · simp only [nbAbs, hid, Bool.false_eq_true, if_false, NbStepPost] at hpost
+        obtain ⟨join, tx, hstart⟩ := nbInv_started hpost.1
+        simp only [Started] at hstart
+        obtain ⟨_, o, hsend, _⟩ := hstart
+        have hsf : sentFrame g r.m d p c rs = some o.frame := by unfold sentFrame; rw [hsend]
+        have hhyp : step g (r.m, rs) (.uplink d p c (some 0) none none 0 0) =
+            .ok ((faultAfterTx r'.m, rs'), .up o (if faultExpired r'.m then some .sessionExpired else none) none) := by
+          simp only [step, hsend, faultedCycle, bind, Except.bind, pure, Except.pure]
+        have hsp := step_rel g r.m _ rs rs' _ _ b hRel hhyp
+        simp only [stepPost] at hsp
+        refine ⟨fun f lo e => (by rw [hf, hsf] at e; cases e; exact hsp.1 lo), (r.m, rs), _, hpost.1,
+          fun hi => absurd hi (nbInv_some_flight hpost.1), fun _ => ⟨⟨b, hRel⟩, ?_⟩⟩
+        simp only [Promise]
+        refine ⟨o, r'.m, rs', hsend, ?_⟩
+        intro lo e
+        unfold nextBound at e
+        rw [hf, hsf] at e
+        split at e
+        · cases e
+        · simp only [Option.some.injEq] at e; omega
+  · obtain ⟨x, rfl⟩ := nbInv_flight hinv hst
+    obtain ⟨hf, hj⟩ := nbObsOf_flight g r rs ev resp hst
+    obtain ⟨⟨b0, hRel0⟩, hprom⟩ := hfl hst
+    have hb' : nextBound b (nbObsOf g r rs ev resp) = b ∨ nextBound b (nbObsOf g r rs ev resp) = none := by
+      unfold nextBound; rw [hf, hj]; split
+      · exact Or.inr rfl
+      · exact Or.inl rfl
+    refine ⟨fun f lo e => (by rw [hf] at e; cases e), ?_⟩
+    rcases nbAbs_flight x r.st ev (headItem items) r'.st hst with ⟨y, hab, hk⟩ | ⟨y, tx, hab, hk⟩
+    · rw [hab] at hpost
+      exact ⟨pre, some y, hpost.1, fun hi => absurd hi (nbInv_some_flight hpost.1),
+        fun _ => ⟨⟨b0, hRel0⟩, promise_weaken hprom hk hb'⟩⟩
+    · rw [hab] at hpost
+      obtain ⟨out, hstep, hinv', hresp, _⟩ := hpost
+      obtain ⟨hst', _⟩ := nbInv_none_idle hinv'
+      refine ⟨(r'.m, rs'), none, hinv', fun _ => ?_, fun hne => absurd hst' hne⟩
+      obtain ⟨m0, s0⟩ := pre
+      have hsp := step_rel g m0 r'.m s0 rs' _ out b0 hRel0 hstep
+      simp only [Promise] at hprom
+      cases hkind : x.kind with
+      | none =>
+        rw [hkind] at hprom
+        simp only at hprom
+        have hev : ghostEv y tx = .joinOtaa none y.rx1 y.rx2 tx.rx1.maxPayload.toNat tx.rx2.maxPayload.toNat := by
+          unfold ghostEv; rw [hk, hkind]
+        rw [hev] at hsp hstep
+        have hr0 : Rel r'.m (some 0) := rel0 _
+        rcases hb' with e | e <;> rw [e]
+        · exact rel_weaken hr0 (fun lo e => by rw [hprom lo e]; exact Nat.le_refl _)
+        · exact rel_none _
+      | some dpc =>
+        obtain ⟨d, p, c⟩ := dpc
+        rw [hkind] at hprom
+        simp only at hprom
+        obtain ⟨o, m1, rs1, hsend, hle⟩ := hprom
+        have hev : ghostEv y tx = .uplink d p c none y.rx1 y.rx2 tx.rx1.maxPayload.toNat tx.rx2.maxPayload.toNat := by
+          unfold ghostEv; rw [hk, hkind]
+        rw [hev] at hsp hstep
+        obtain ⟨hframe, hshape⟩ := step_uplink_shape g (m0, s0) (r'.m, rs') d p c none _ _ _ _ out hstep
+        have hsf : sentFrame g m0 d p c s0 = some o.frame := by unfold sentFrame; rw [hsend]
+        simp only at hframe
+        rw [hsf] at hframe
+        rcases hshape with rfl | ⟨o', rr, dl, rfl⟩
+        · cases hframe
+        · simp only [Out.frame?, Option.some.injEq] at hframe
+          simp only [stepPost] at hsp
+          rcases hb' with e | e <;> rw [e]
+          · have hx := nbResp_expired hresp
+            unfold nextBound at e
+            have hr : (nbObsOf g r rs ev resp).resp = resp := rfl
+            rw [hf, hj, hr] at e
+            by_cases hexp : expiredResp rr = true
+            · rw [hx, hexp] at e
+              simp only [if_true] at e
+              rw [← e]; exact rel_none _
+            · simp only [hexp, Bool.false_eq_true, if_false] at hsp
+              exact rel_weaken hsp.2 (fun lo e => by rw [← hframe]; exact hle lo e)
+          · exact rel_none _
+
+theorem nbRunObs_bound {σ} (g : Rng σ) (cfg : NbCfg) (b : Option Nat) (pre : MacState × σ) (gh : Option NbGhost) (r : NbRun)
+    (rs : σ) (evs : List (NbEvent × List NbItem)) (obs : List NbObs) (r' : NbRun) (rs' : σ)
+    (hJ : NbBound g b pre gh r rs) (h : nbRunObs g cfg r rs evs = .ok (obs, r', rs')) : FcntStrictNb b obs := by
+  induction evs generalizing b pre gh r rs obs with
+  | nil =>
+    simp only [nbRunObs, pure, Except.pure, Except.ok.injEq, Prod.mk.injEq] at h
+    obtain ⟨rfl, _⟩ := h
+    trivial
+  | cons x rest ih =>
+    obtain ⟨ev, items⟩ := x
+    unfold nbRunObs at h
+    obtain ⟨⟨resp, r1, rs1⟩, hev, hk⟩ := Except.bind_eq_ok h
+    obtain ⟨⟨obs1, r2, rs2⟩, hrun, hk2⟩ := Except.bind_eq_ok hk
+    simp only [pure, Except.pure, Except.ok.injEq, Prod.mk.injEq] at hk2
+    obtain ⟨rfl, rfl, rfl⟩ := hk2
+    obtain ⟨hcheck, pre', gh', hJ'⟩ := nbStep_bound g cfg b pre gh r rs ev items resp r1 rs1 hJ hev
+    exact ⟨hcheck, ih _ pre' gh' r1 rs1 obs1 hJ' hrun⟩
+
+/-- **the frames the non-blocking front-end hands to the radio carry strictly increasing counters
+within a session, for every event sequence.**  From `Idle` in any MAC state, for every sequence of
+application, radio and timer events with any radio answers (protocol violations, radio errors,
+`TxDone` at once, several frames in one window, stray timeouts): every data frame handed to the radio
+carries a counter strictly above the previous one of the same session, until `SessionExpired` is
+reported; a `join` accepted in `Idle` starts a new session.  Obtained from the refinement invariant
+(`nbStep_inv`) and the history's step theorem (`step_rel`). -/
+theorem nb_fcnt_strict {σ} (g : Rng σ) (cfg : NbCfg) (r : NbRun) (rs : σ) (evs : List (NbEvent × List NbItem))
+    (obs : List NbObs) (r' : NbRun) (rs' : σ) (hidle : r.st = .idle)
+    (h : nbRunObs g cfg r rs evs = .ok (obs, r', rs')) : FcntStrictNb (some 0) obs :=
+  nbRunObs_bound g cfg (some 0) (r.m, rs) none r rs evs obs r' rs'
+    ⟨nbInv_idle g r rs hidle, fun _ _ e _ _ => by cases e; exact Nat.zero_le _, fun hne => absurd hidle hne⟩ h
+
 /-! non-vacuity -/
 def cfg0 : Config :=
   { dataRate := 0, rx1Delay := 1000, txPower := none, rx1DrOffset := 0, rx2DataRate := none, rx2Frequency := none, adrEnabled := true }
@@ -1221,6 +1974,102 @@ downlink and the accepted RX1 downlink each advanced the counter, the faulted up
 example : (run lcg (MacState.init (RegionState.init .EU868) 14 0, 1) demoHistory).toOption.map (fun r => upFcnts r.2)
     = some [(7, 0), (7, 2), (7, 3), (9, 0)] := by decide +kernel
 
+/-! ### non-vacuity of the front-end theorems, and the Class C demonstration -/
+
+def demoCfgC : DevCfg := { lead := 15, buffer := 40, classC := true, txMs := 57 }
+
+def cDown (n : Nat) (conf : Bool) : RxView :=
+  .data { len := 14, confirmed := conf, fcnt16 := n, micFcnt := some n, fopts := [], fport := some 2, payload := [n] }
+
+/-- ABP session; a Class C device hears a confirmed downlink between TX and RX1 of the first uplink,
+nothing in the windows; a second uplink runs into a radio error while setting up RX2; OTAA re-join
+(accept in RX2); one more uplink -/
+def demoOps : List AsyncOp :=
+  [ .abp 7 1 2,
+    .send [1] 1 false [.ok, .ok, .frame 5 (cDown 3 true), .ok],
+    .send [2] 1 false [.ok, .ok, .ok, .ok, .ok, .ok, .ok, .ok, .err],
+    .join [.ok, .ok, .ok, .ok, .ok, .ok, .ok, .ok, .ok, .frame 1 (.joinAccept { micOk := true, devAddr := 9, dlSettings := 0, rxDelay := 1, cfList := none, nwkKey := 5, appKey := 6 })],
+    .send [3] 3 false [] ]
+
+def obsFcnts (obs : List OpObs) : List (Option (Nat × Nat × Bool)) :=
+  obs.map (fun ob => ob.frame.map (fun f => (f.devAddr, f.fcnt, f.ack)))
+
+/-- the session runs; its frames carry (DevAddr, FCnt, ACK) = (7,0,no) (7,2,yes) | (9,0,no): the Class C
+downlink heard in the middle of the first procedure and the completion of that procedure each took a
+counter, the ACK it asks for goes out with the NEXT uplink, the faulted uplink burnt counter 2 -/
+example : (asyncOps lcg demoCfgC { m := MacState.init (RegionState.init .EU868) 14 0, script := [], calls := [], downlinks := [] } 1 demoOps).toOption.map
+    (fun r => obsFcnts r.1) = some [none, some (7, 0, false), some (7, 2, true), none, some (9, 0, false)] := by decide +kernel
+
+/-- the same exchanges on the non-blocking front-end -/
+def demoNb : List (NbEvent × List NbItem) :=
+  [ (.send [1] 1 true, []), (.send [2] 1 false, []), (.radio (.txDone 100), []), (.timeout, []),
+    (.radio (.rx 0 .garbage), []), (.radio (.rx (-3) (cDown 3 true)), []),
+    (.send [2] 1 false, [.txDoneNow 5000]), (.join, []), (.timeout, [.err]), (.timeout, []), (.timeout, []), (.timeout, []),
+    (.timeout, []), (.send [3] 1 false, [.err]), (.send [4] 1 false, [.idle]), (.send [5] 1 false, []) ]
+
+def demoNbStart : NbRun :=
+  { m := macJoinAbp (MacState.init (RegionState.init .EU868) 14 0) 7 1 2, st := .idle, script := [], calls := [], downlinks := [] }
+
+/-- counters 0 (answered in RX1), 1 (RX2 timeout), 2 and 3 (the radio refuses the transmission: burnt), 4 -/
+example : (nbRunObs lcg { offset := -20, duration := 200 } demoNbStart 1 demoNb).toOption.map
+    (fun r => r.1.filterMap (fun ob => ob.frame.map (fun f => f.fcnt))) = some [0, 1, 2, 3, 4] := by decide +kernel
+
+/-! **Class C receptions inside the receive procedure are not a history of `Model/History.lean`.**
+The script below (a confirmed downlink heard by `rx_continuous` between TX and RX1, nothing in the
+windows) leaves the session at `fcnt_up = 2, fcnt_down = 3, adr_ack_cnt = 1, ACK owed`, the frame sent
+carrying counter 0 without ACK.  The two candidate histories — the reception before the uplink, or after
+it — give a different frame (counter 1 with ACK) resp. a different state (`adr_ack_cnt = 0`); the
+extended event `abstractSendC` computes reproduces it.  `classC_inside_op` is the op line that replays
+the same situation on the real front-end (`lvharness eval`): the snapshot shows two counters used and
+ADR count 1 after ONE `send`. -/
+
+def classC_inside_op : String :=
+  "C04 adev EU868 1 - 15 40 1 57 ; abp 637606874 ; asend 1 0 01 | O O R12/60da1b01260000001a1aeb681b01ba/d/15/0/0/0/-/26/ddb6 O O O O O O O O O ; snap"
+
+/-- (fcnt_up, fcnt_down, adr_ack_cnt, ACK owed) of the session (zeros if there is none; no downlink
+counter yet reads 4294967296) -/
+def sessOf (m : MacState) : Nat × Nat × Nat × Bool :=
+  match m.st with
+  | .joined s => (s.fcntUp, (match s.fcntDown with | some n => n | none => 4294967296), s.adrAckCnt, s.ackOwed)
+  | _ => (0, 0, 0, false)
+
+def mAbp : MacState := macJoinAbp (MacState.init (RegionState.init .EU868) 14 0) 7 1 2
+
+def scriptInside : List ScriptItem := [.ok, .ok, .frame 5 (cDown 3 true), .ok]
+
+def frameOf (o : Out) : Option (Nat × Bool) :=
+  match o with
+  | .up so _ _ => some (so.frame.fcnt, so.frame.ack)
+  | _ => none
+
+def insideRun : M (DevResult × DevRun × Nat) :=
+  asyncSend lcg demoCfgC { m := mAbp, script := scriptInside, calls := [], downlinks := [] } [1] 1 false 1
+
+theorem classC_inside_frontend :
+    insideRun.toOption.map (fun r => r.1) = some (.ok .rxComplete) ∧
+    insideRun.toOption.map (fun r => sessOf r.2.1.m) = some (2, 3, 1, true) ∧
+    insideRun.toOption.map (fun r => r.2.1.downlinks) = some [(2, [3])] ∧
+    (sentFrame lcg mAbp [1] 1 false 1).map (fun f => (f.fcnt, f.ack)) = some (0, false) := by decide +kernel
+
+theorem classC_inside_not_rxc_before :
+    (run lcg (mAbp, 1) [.rxc (cDown 3 true) 5 59, .uplink [1] 1 false none none none 59 59]).toOption.map
+      (fun r => (sessOf r.1.1, r.2.filterMap frameOf)) = some ((2, 3, 1, false), [(1, true)]) := by decide +kernel
+
+theorem classC_inside_not_rxc_after :
+    (run lcg (mAbp, 1) [.uplink [1] 1 false none none none 59 59, .rxc (cDown 3 true) 5 59]).toOption.map
+      (fun r => (sessOf r.1.1, r.2.filterMap frameOf)) = some ((2, 3, 0, true), [(0, false)]) := by decide +kernel
+
+theorem classC_inside_extended :
+    (runC lcg (mAbp, 1) [abstractSendC demoCfgC scriptInside [1] 1 false]).toOption.map
+      (fun r => (sessOf r.1.1, r.2.filterMap (fun oc => frameOf oc.out))) = some ((2, 3, 1, true), [(0, false)]) := by
+  decide +kernel
+
+/-- a script without frames between the windows: the event `abstractAsync` computes, and the history
+run equal to the front-end's result (instance of `async_send_refines`) -/
+example : abstractAsync lcg { demoCfgC with classC := false } mAbp 1 [.ok, .ok, .ok, .frame 2 (cDown 4 false), .err] [1] 1 false =
+    .uplink [1] 1 false (some 1) (some (cDown 4 false, 2)) none 59 59 := by rfl
+
+
 end C06
 
 #print axioms C06.history_fcnt_strict
@@ -1237,3 +2086,6 @@ end C06
 #print axioms C06.window_fcnt
 #print axioms C06.cycle_fcnt
 #print axioms C06.fault_fcnt
+#print axioms C06.runC_fcnt_strict
+#print axioms C06.async_fcnt_strict
+#print axioms C06.nb_fcnt_strict
